@@ -47,6 +47,63 @@ def make_arr(rng, key, shapes, mode="auto"):
     return {"L": length, "circ": circ, "protos": protos, "genes": genes}
 
 
+def two_hybrids_and_a_loner(rng, key, pool):
+    """ five protoclusters: two pairs that each share a defining gene (two chemical hybrids) and one protocluster with a
+        defining gene of its own, placed so that its core often overlaps a hybrid's core while the other hybrid starts no
+        later than that one (candidates are looked at in location order, cores decide interleaving) """
+    length, circ = key
+
+    def bases(loc):
+        return {b for s, e in loc["parts"] for b in range(s, e)}
+
+    def pair(shape):
+        gene_at = shape["core"]["parts"][0][0]
+        partners = [s for s in pool if gene_at in bases(s["core"])]
+        return [shape, rng.choice(partners)], gene_at
+
+    for _ in range(40):
+        loner = rng.choice(pool)
+        first, second = rng.choice(pool), rng.choice(pool)
+        guided = rng.random() < 0.8
+        if guided and not (bases(second["core"]) & bases(loner["core"]) and not bases(first["core"]) & bases(loner["core"])):
+            continue
+        (p_shapes, p_gene), (q_shapes, q_gene) = pair(first), pair(second)
+        loner_gene = loner["core"]["parts"][0][0]
+        if len({p_gene, q_gene, loner_gene}) < 3:
+            loner_gene = next((b for b in sorted(bases(loner["core"])) if b not in (p_gene, q_gene)), None)
+            if loner_gene is None or p_gene == q_gene:
+                continue
+        shapes = p_shapes + q_shapes + [loner]
+        protos = [{"core": s["core"], "extent": s["extent"], "product": f"p{i + 1}"} for i, s in enumerate(shapes)]
+        genes = [{"loc": {"parts": [[p_gene, p_gene + 1]], "strand": 1}, "core_for": ["p1", "p2"]},
+                 {"loc": {"parts": [[q_gene, q_gene + 1]], "strand": -1}, "core_for": ["p3", "p4"]},
+                 {"loc": {"parts": [[loner_gene, loner_gene + 1]], "strand": 1}, "core_for": ["p5"]}]
+        return {"L": length, "circ": circ, "protos": protos, "genes": genes}
+    return None
+
+
+def _span(start, end):
+    return {"parts": [[start, end]], "strand": 1}
+
+
+def three_hybrids_and_a_single(rng):
+    """ seven protoclusters on a line of 30: three pairs sharing a defining gene each (three candidates in location order),
+        the middle or first of them with a long neighbourhood, and a protocluster that overlaps only that neighbourhood """
+    cores = sorted(rng.sample(range(0, 12), 3))
+    protos, genes = [], []
+    long_one = rng.choice([0, 1])
+    for idx, core in enumerate(cores):
+        reach = rng.randrange(16, 26) if idx == long_one else core + 1 + rng.choice([0, 1])
+        left = core - rng.choice([0, 1]) if core else 0
+        for twin in (1, 2):
+            protos.append({"core": _span(core, core + 1), "extent": _span(left, reach), "product": f"p{2 * idx + twin}"})
+        genes.append({"loc": _span(core, core + 1), "core_for": [f"p{2 * idx + 1}", f"p{2 * idx + 2}"]})
+    at = rng.randrange(13, 16)
+    protos.append({"core": _span(at, at + 1), "extent": _span(at - rng.choice([0, 1]), rng.randrange(at + 1, 30)), "product": "p7"})
+    genes.append({"loc": _span(at, at + 1), "core_for": ["p7"]})
+    return {"L": 30, "circ": False, "protos": protos, "genes": genes}
+
+
 def observe(case):
     from .. import build as B, project as P
     from antismash.common.secmet.features import Protocluster
@@ -142,9 +199,18 @@ def run(ctx):
                 chosen += [rng.choice(pool) for _ in range(rng.choice([1, 2]))]
                 rng.shuffle(chosen)
                 cases.append({"arr": make_arr(rng, key, chosen[:4], "share" if rng.random() < 0.8 else "auto"), "sampled": True})
+        for _ in range(700 if ctx.quick else 6000):
+            arr = two_hybrids_and_a_loner(rng, key, pool)
+            if arr:
+                cases.append({"arr": arr, "sampled": True})
+    for _ in range(300 if ctx.quick else 4000):
+        cases.append({"arr": three_hybrids_and_a_single(rng), "sampled": True})
     for idx, case in enumerate(cases):
         case["id"] = idx
         count = len(case["arr"]["protos"])
+        if count >= 5:
+            case["orders"] = [list(range(1, count + 1))] + [rng.sample(range(1, count + 1), count) for _ in range(2 if ctx.quick else 5)]
+            continue
         orders = [list(p) for p in itertools.permutations(range(1, count + 1))]
         if count == 4 and ctx.quick:
             orders = [orders[0]] + rng.sample(orders[1:], 5)
@@ -169,7 +235,10 @@ def run(ctx):
     ctx.exhaustive = not ctx.quick
     ctx.rule = ("TLC enumerates every protocluster shape (core span of 1-3 bases incl. origin-spanning, neighbourhood 0/1/3) on a line "
                 "and a ring of 12; the harness forms all pairs (thorough; sampled in quick) with and without a shared defining gene "
-                "and seeded triples/quadruples, and runs candidate formation for every order of adding the protoclusters; "
+                "and seeded triples/quadruples, plus arrangements of five (two pairs sharing a defining gene each and a fifth protocluster "
+                "whose core tends to overlap one pair's core) and of seven on a line of 30 (three such pairs, one with a long "
+                "neighbourhood that alone reaches a seventh protocluster), and runs candidate formation for every order (sampled orders for 4-5) of "
+                "adding the protoclusters; "
                 "non-trivial = at least one non-single candidate was formed")
     ctx.assumptions += ["defining genes are single-base genes at the first base of a core",
                         "arrangements whose groups coincide in coordinates or need half the ring are only checked for membership, "
